@@ -231,6 +231,16 @@ struct RegistryWorld : World {
 			case OP_SWEEP: {
 				for (int id = 0; id <= 0x1100; ++id) check_id(id, "SWEEP");
 				check_names("SWEEP"); log.ev("SWEEP"); outcome = 1;
+				// transport format codes of values: a code that stands for a built-in scalar has that type's size, and the type maps back to a code for itself
+				for (int fmt = 0; fmt < 256; ++fmt) {
+					int t; size_t fs; { Sut s; t = mpt_msgvalfmt_typeid((uint8_t) fmt); fs = mpt_msgvalfmt_size((uint8_t) fmt); }
+					if (t <= 0) continue;
+					const type_traits *tr; { Sut s; tr = mpt_type_traits((type_t) t); }
+					if (!tr || tr->size != fs) fail("wrong-size", "value format code %02x stands for type '%c' and %zu bytes, the registry reports %zu bytes for that type", fmt, t, fs, tr ? tr->size : (size_t) 0);
+					int back, t2 = -1; { Sut s; back = mpt_msgvalfmt_code(t); if (back >= 0) t2 = mpt_msgvalfmt_typeid((uint8_t) back); }
+					if (back < 0 || t2 != t) fail("wrong-description", "value format code %02x stands for built-in type '%c', but that type has %s (%d)", fmt, t, back < 0 ? "no format code" : "a code of another type", back < 0 ? back : t2);
+				}
+				st.hit("probe:value_format_codes");
 				break;
 			}
 			case OP_FILL: {
